@@ -164,6 +164,15 @@ def run_units(units, repo, tier="quick", seed=0, tag="x", timeout=None):
     if only:
         harnesses = [h for h in harnesses if h["name"] in only.split(",")]
     files = set(h["file"] for h in harnesses)
+    deps = getattr(reg, "DEPS", {})
+    grew = True
+    while grew:
+        grew = False
+        for f in list(files):
+            for d in deps.get(f, []):
+                if d not in files:
+                    files.add(d)
+                    grew = True
     stage_dir = os.path.join(VERIF, ".scratch", "kani-" + tag)
     os.makedirs(stage_dir, exist_ok=True)
     lockf = open(os.path.join(stage_dir, ".lock"), "w")
@@ -219,10 +228,11 @@ def run_units(units, repo, tier="quick", seed=0, tag="x", timeout=None):
                 why = (pr or {}).get("why") or "timeout" if (timed_out or (pr or {}).get("why")) else ("staged crate does not compile with the harness module" if compile_error else "no result from cargo kani")
                 o["detail"] = why
                 r.status = "undecided"
-                r.reason = (r.reason + "; " if r.reason else "") + "%s: %s" % (h["name"], why)
-                if compile_error and not r.reason.endswith("]"):
+                if compile_error:
                     errs = re.findall(r"^error(?:\[E\d+\])?: .*$", out, re.M)[:3]
-                    r.reason += " [" + " | ".join(errs) + "]"
+                    r.reason = "staged crate does not compile with the harness modules [" + " | ".join(errs) + "]"
+                else:
+                    r.reason = (r.reason + "; " if r.reason else "") + "%s: %s" % (h["name"], why)
             else:
                 o["time_s"] = pr["time_s"]
                 o["checks"] = pr["checks"]
